@@ -344,7 +344,7 @@ where
                                 continue;
                             }
                         }
-                        if i % 16 == 0 && Instant::now() > deadline {
+                        if Instant::now() > deadline {
                             rep.count("stopped_by_time_budget", 1);
                             break;
                         }
